@@ -942,9 +942,14 @@ class COBOL_EBCDIC_Sheet(Sheet[NDInstance]):
         if wb.lrecl:
             self.lrecl = wb.lrecl
         else:
-            # Compute lrecl from layout DDE's, assuming no Occurs Depending On clauses.
-            loc = LocationMaker(wb.unpacker, self.schema).from_schema()
-            self.lrecl = loc.end
+            # Compute lrecl from layout DDE's. With an Occurs Depending On clause the record
+            # length varies and cannot be computed from the schema: leave it as None
+            # (RECFM N, V and VB do not need it; this is what the COBOL_EBCDIC_File docstring asks for.)
+            try:
+                loc = LocationMaker(wb.unpacker, self.schema).from_schema()
+                self.lrecl = loc.end
+            except ValueError:
+                self.lrecl = None
         return result
 
     def row_iter(self) -> Iterator["Row[NDInstance]"]:
